@@ -248,6 +248,8 @@ func handleInsertValues(p *InsertPlan) error {
 				return fmt.Errorf("find table index error: %v", err)
 			}
 			p.result.Inter([]int{routeIdx})
+		default:
+			return fmt.Errorf("sharding value must be a literal, got %T", valueItem)
 		}
 		p.rewriteStmts = append(p.rewriteStmts, p.stmt)
 		return nil
@@ -280,6 +282,8 @@ func handleInsertValues(p *InsertPlan) error {
 			if err != nil {
 				return fmt.Errorf("find table index error: %v", err)
 			}
+		default:
+			return fmt.Errorf("sharding value must be a literal, got %T", valueItem)
 		}
 	}
 
